@@ -3,6 +3,7 @@
 package sio
 
 import (
+	"reflect"
 	"time"
 
 	eio "github.com/karagenc/socket.io-go/engine.io"
@@ -35,4 +36,108 @@ func (q *VerifPacketQueue) Len() int {
 }
 func (q *VerifPacketQueue) Poll() (packets []*eioparser.Packet, ok, closed bool) {
 	return q.pq.poll()
+}
+
+func init() {
+	// Event handlers are identified by the code pointer of their function,
+	// which is also what OffEvent compares.
+	vhook.RegisterConverter(func(v any) (any, bool) {
+		switch x := v.(type) {
+		case *eventHandler:
+			return x.rv.Pointer(), true
+		case []*eventHandler:
+			out := make([]uintptr, len(x))
+			for i, h := range x {
+				out[i] = h.rv.Pointer()
+			}
+			return out, true
+		case reflect.Value:
+			if x.Kind() == reflect.Func {
+				return x.Pointer(), true
+			}
+		case []reflect.Value:
+			out := make([]uintptr, len(x))
+			for i, h := range x {
+				if h.Kind() == reflect.Func {
+					out[i] = h.Pointer()
+				}
+			}
+			return out, true
+		}
+		return nil, false
+	})
+}
+
+// VerifHandlerStore exposes handlerStore (as instantiated by the library: pointers to funcs).
+type VerifHandlerStore struct{ s *handlerStore[*func()] }
+
+func VerifNewHandlerStore() *VerifHandlerStore {
+	return &VerifHandlerStore{s: newHandlerStore[*func()]()}
+}
+func (v *VerifHandlerStore) Key() any         { return v.s }
+func (v *VerifHandlerStore) On(f *func())     { v.s.on(f) }
+func (v *VerifHandlerStore) Once(f *func())   { v.s.once(f) }
+func (v *VerifHandlerStore) OnSub(f *func())  { v.s.onSubEvent(f) }
+func (v *VerifHandlerStore) OffSub(f *func()) { v.s.offSubEvent(f) }
+func (v *VerifHandlerStore) OffSubs()         { v.s.offSubEvents() }
+func (v *VerifHandlerStore) Off(f ...*func()) { v.s.off(f...) }
+func (v *VerifHandlerStore) OffAll()          { v.s.offAll() }
+func (v *VerifHandlerStore) Fire() []*func()  { return v.s.getAll() }
+func (v *VerifHandlerStore) List() (subs, on, once []*func()) {
+	v.s.mu.Lock()
+	defer v.s.mu.Unlock()
+	return append([]*func(){}, v.s.subs...), append([]*func(){}, v.s.funcs...), append([]*func(){}, v.s.funcsOnce...)
+}
+
+// VerifEventHandlerStore exposes eventHandlerStore.
+type VerifEventHandlerStore struct{ s *eventHandlerStore }
+
+func VerifNewEventHandlerStore() *VerifEventHandlerStore {
+	return &VerifEventHandlerStore{s: newEventHandlerStore()}
+}
+func (v *VerifEventHandlerStore) Key() any { return v.s }
+func (v *VerifEventHandlerStore) On(event string, f any) {
+	h, err := newEventHandler(f)
+	if err != nil {
+		panic(err)
+	}
+	v.s.on(event, h)
+}
+func (v *VerifEventHandlerStore) Once(event string, f any) {
+	h, err := newEventHandler(f)
+	if err != nil {
+		panic(err)
+	}
+	v.s.once(event, h)
+}
+func (v *VerifEventHandlerStore) Off(event string, f ...any) {
+	var values []reflect.Value
+	if f != nil {
+		values = make([]reflect.Value, len(f))
+		for i := range f {
+			values[i] = reflect.ValueOf(f[i])
+		}
+	}
+	v.s.off(event, values...)
+}
+func (v *VerifEventHandlerStore) OffAll() { v.s.offAll() }
+func (v *VerifEventHandlerStore) Fire(event string) []uintptr {
+	hs := v.s.getAll(event)
+	out := make([]uintptr, len(hs))
+	for i, h := range hs {
+		out[i] = h.rv.Pointer()
+	}
+	return out
+}
+func (v *VerifEventHandlerStore) List(event string) (on, once []uintptr) {
+	v.s.mu.Lock()
+	defer v.s.mu.Unlock()
+	on, once = []uintptr{}, []uintptr{}
+	for _, h := range v.s.events[event] {
+		on = append(on, h.rv.Pointer())
+	}
+	for _, h := range v.s.eventsOnce[event] {
+		once = append(once, h.rv.Pointer())
+	}
+	return
 }
